@@ -11,6 +11,8 @@ def main():
     ap.add_argument("--only")
     ap.add_argument("--jobs", type=int)
     ap.add_argument("--budget", type=float)
+    ap.add_argument("--mon", help="experiment: comma separated monitor list used with --grid")
+    ap.add_argument("--grid", help="experiment: run this property's monitors on another property's grid")
     a = ap.parse_args()
     seed = int(os.environ.get("VERIF_SEED", "0") or 0)
     from . import runner
@@ -30,7 +32,7 @@ def main():
         from ctl import run as ctlrun
 
         sys.exit(ctlrun.run_property(prop, a.tier, seed))
-    sys.exit(runner.run_property(a.prop.upper(), a.tier, seed, jobs=a.jobs, only=a.only, budget=a.budget))
+    sys.exit(runner.run_property(a.prop.upper(), a.tier, seed, jobs=a.jobs, only=a.only, budget=a.budget, grid=a.grid, mon=a.mon))
 
 
 if __name__ == "__main__":
